@@ -247,7 +247,9 @@ func (r *Repository) CreateSubtreeFromUpstreamRepository(upstream *Repository, u
 		// Create list of TreeEntry objects representing all blobs except those
 		// currently under localPath
 		for filePath, blobID := range currentFiles {
-			if !strings.HasPrefix(filePath, localPath) {
+			// A file at localPath itself is replaced as well, it cannot
+			// coexist with the directory created below
+			if !strings.HasPrefix(filePath, localPath) && filePath != strings.TrimSuffix(localPath, "/") {
 				entries = append(entries, NewEntryBlob(filePath, blobID))
 			}
 		}
